@@ -428,7 +428,8 @@ def generate(template_path: str, snapshot: str, exclude: dict | None = None) -> 
                 line_to_oid.update(marks[5])
                 excluded.append((bkey, f"extraction: {e}", b_oids, b_props))
                 continue
-            blocks.append((bkey, blk_line0, cur_line() - 1))
+            if not (d["raw"] and not d["oblig"] and not d["fragment"]) or d.get("wrapper"):
+                blocks.append((bkey, blk_line0, cur_line() - 1))      # type/const declarations are never candidates for isolation
             continue
         # ordinary template line
         if pending_oblig and re.search(r"\bfn\s+([A-Za-z_0-9]+)", s):
